@@ -380,6 +380,48 @@ func TestVerifDiscovReloadRace(t *testing.T) {
 	if vrt.Thorough() {
 		bound = 3
 	}
+	// a reader polling Values() while events are being delivered: once everything delivered
+	// has been processed the (cached) list must equal the live values
+	for _, ev := range []string{"put", "del", "put+del"} {
+		ev := ev
+		vrt.Explore(vrt.Options{Name: "discov/values-vs-event/" + ev, Bound: bound + 1, Budget: vrt.FairBudget(2), Prune: true}, func(r *vrt.Run) {
+			s := newDSys(r)
+			s.f.PutKV(full("k1"), "vA")
+			s.f.PutKV(full("k2"), "vB")
+			s.subscribe(false)
+			vrt.Settle()
+			want := "[vA vB]"
+			switch ev {
+			case "put":
+				s.f.PutKV(full("k3"), "vC")
+				want = "[vA vB vC]"
+			case "del":
+				s.f.DelKV(full("k2"))
+				want = "[vA]"
+			default:
+				s.f.PutKV(full("k3"), "vC")
+				s.f.DelKV(full("k1"))
+				want = "[vB vC]"
+			}
+			vrt.Go(func() {
+				s.f.Deliver()
+			})
+			vrt.Go(func() {
+				for i := 0; i < 2; i++ {
+					v := s.subs[0].s.Values()
+					vrt.Obs()
+					_ = v
+				}
+			})
+			vrt.Settle()
+			got := append([]string{}, s.subs[0].s.Values()...)
+			sort.Strings(got)
+			r.Outcome("%v", got)
+			if fmt.Sprint(got) != want {
+				r.Failf("after all delivered events were processed Values() lists %v, the live keys' values are %s (a concurrent reader polled Values())", got, want)
+			}
+		})
+	}
 	for _, withDisconnect := range []bool{false, true} {
 		withDisconnect := withDisconnect
 		vrt.Explore(vrt.Options{Name: fmt.Sprintf("discov/reload-vs-event/disconnect=%v", withDisconnect), Bound: bound, Budget: vrt.FairBudget(2)}, func(r *vrt.Run) {
